@@ -256,6 +256,9 @@ def failure_case(asm, acc, case):
             open(os.path.join(root, 'blob.bin'), 'wb').write(b'\x01\x02')
         elif fault == 'bad_hex_offset':
             args_extra = ['--hex-offset', rng.choice(['zzz', '0xZZ', '12abc', '0x', '-4', '-0x10', '-1', ''])]     # no text, and no address below zero
+        elif fault == 'hex_past_4g':
+            # a well-formed, non-negative offset at which the image does not fit below 2^32: the run cannot write the hex file
+            args_extra = ['--hex-offset', rng.choice(['0xfffffffc', '0xffffffff', '4294967292', '0x100000000', '0xFFFFFFFE'])]
         elif fault == 'missing_input':
             src = os.path.join(root, 'nosuch.asm')
         elif fault == 'bad_include_dir':
@@ -287,7 +290,7 @@ def failure_case(asm, acc, case):
         tracked = [p for p in (outp, labp, hexp) if not os.path.isdir(p)]
         before = {p: stat_of(p) for p in tracked}
         args = [src, '-o', o_arg or outp, '-l', l_arg or labp] + (['-c'] if case['compress'] else [])
-        if fault != 'bad_hex_offset' and case.get('hex', True):
+        if fault not in ('bad_hex_offset', 'hex_past_4g') and case.get('hex', True):
             args += ['--hex-offset', '0x08000000']
         args += args_extra
         r = cli.run_cli(args, root, extra_env=env, launcher=launcher)
@@ -347,7 +350,7 @@ def plan(tier, seed):
                       'hex': hexes[i % len(hexes)], 'defs': i % 7 == 0, 'big': i % 4 == 1})
     reps = 1 if tier == 'quick' else 24
     for rep in range(reps):
-        for fault in list(NATURAL) + ['bad_hex_offset', 'missing_input', 'bad_include_dir', 'out_missing_dir', 'out_is_dir', 'labels_missing_dir', 'hex_is_dir']:
+        for fault in list(NATURAL) + ['bad_hex_offset', 'hex_past_4g', 'missing_input', 'bad_include_dir', 'out_missing_dir', 'out_is_dir', 'labels_missing_dir', 'hex_is_dir']:
             for compress in (False, True):
                 for present in (True, False):
                     cases.append({'what': 'failure', 'fault': fault, 'compress': compress, 'present': present, 'kind2': '', 'rep': rep})
